@@ -183,6 +183,13 @@ def verify_function(c, mutate=None, canary=False):
     for p, t in c.params.items():
         if p not in env:
             env[p] = api.mk(t, p, inv)       # ghost parameters
+    for g_ in ("nwrites", "nfiltered", "nstat", "rc_total", "nprinted"):
+        env["$" + g_] = fresh("ghost." + g_, I)
+        inv.append(env["$" + g_] >= 0)
+    for g_ in ("w_writer", "w_rec1", "w_rec2", "tally", "tally_key"):
+        env["$" + g_] = SeqV(fresh("ghost." + g_, AII), env["$nwrites"] if g_.startswith("w_") else fresh("ghost." + g_ + ".n", I), None)
+    inv.append(env["$tally"].n >= 0)
+    env["$tally_key"] = SeqV(env["$tally_key"].arr, env["$tally"].n, None)
     st = St(env, inv)
     if init_self is not None:
         from .calls import construct
@@ -208,6 +215,9 @@ def verify_function(c, mutate=None, canary=False):
             if c.ret is not None and rst.env["result"] is not None:
                 from . import heap
                 rst.env["result"] = heap.coerce(rst.env["result"], c.ret, rst)
+            elif isinstance(c.ret, api.OptT) and rst.env["result"] is None:
+                # definitely None: give `val(result)` a (never used) value so that guarded clauses can be stated
+                rst.env["result"] = Opt(z3.BoolVal(True), api.mk(c.ret.t, "result.unused", []))
             if "__yielded__" in rst.env and any(isinstance(x, (ast.Yield, ast.YieldFrom)) for x in ast.walk(fnode)):
                 rst.env["result"] = rst.env["__yielded__"]
             cx.covers.append((f"return{nret}", list(rst.pc)))
